@@ -164,7 +164,18 @@ def strategyOk (h : Heap) (s : Stmt) : Bool :=
         | none, none => true
         | _, _ => false
     else true
+  let zOpnd : Opnd → Bool
+    | .ex e => e.ty = .z
+    | .bi _ => true
   match s with
+  | .cmp o a b =>
+    if zOpnd a && zOpnd b then
+      [false, true].all fun c =>
+        match execCmpZ c 4 o a b h, execTmp h.abs (.cmp o a b) with
+        | some v, some (.int w) => v == w
+        | none, none => true
+        | _, _ => false
+    else true
   | .assign .z i e => chk i e
   | .compound o .z i r => chk i (expand o .z i r)
   | .compoundSh o .z i n => chk i (.sh o (.zv i) n)
